@@ -45,7 +45,7 @@ import (
 type c07pCase struct {
 	Script string `json:"script"` // out | infirst
 	Park   int    `json:"park"`   // index of the record at which its goroutine is held (-1: nobody is held)
-	X      string `json:"x"`      // none | disable | inconn | close | rest
+	X      string `json:"x"`      // none | disable | delete | stopbgp | inconn | close | rest
 }
 
 func (c c07pCase) String() string {
@@ -265,7 +265,7 @@ func c07pRun(t *testing.T, c c07pCase) (res c07pResult) {
 			synctest.Wait()
 		}
 		res.reached = parked()
-		disabled := false
+		disabled, deleted, stopped := false, false, false
 		disable := func() {
 			disabled = true
 			go func() {
@@ -285,6 +285,18 @@ func c07pRun(t *testing.T, c c07pCase) (res c07pResult) {
 			case "disable":
 				noteOpen()
 				disable()
+			case "delete":
+				noteOpen()
+				disabled, deleted = true, true
+				go func() {
+					_ = w.s.DeletePeer(context.Background(), &api.DeletePeerRequest{Address: addr})
+				}()
+			case "stopbgp":
+				noteOpen()
+				disabled, deleted, stopped = true, true, true
+				go func() {
+					_ = w.s.StopBgp(context.Background(), &api.StopBgpRequest{})
+				}()
 			case "inconn":
 				if in == nil {
 					inConn()
@@ -326,12 +338,16 @@ func c07pRun(t *testing.T, c c07pCase) (res c07pResult) {
 		w.advance(10 * time.Second)
 
 		p := thePeer
-		if st := p.fsm.state.Load(); st != bgp.BGP_FSM_IDLE {
+		if st := p.fsm.state.Load(); st != bgp.BGP_FSM_IDLE && !deleted {
 			bad("not-idle-after-disable", "10 s after the administrative disable the FSM is in %s", st)
 		}
 		var rep *api.Peer
 		_ = w.s.ListPeer(context.Background(), &api.ListPeerRequest{Address: addr}, func(x *api.Peer) { rep = x })
-		if rep == nil {
+		if deleted {
+			if rep != nil && !stopped {
+				bad("deleted-peer-listed", "ListPeer still lists the deleted peer 10 s after DeletePeer (session state %v)", rep.State.SessionState)
+			}
+		} else if rep == nil {
 			bad("listpeer-missing", "ListPeer does not list the peer")
 		} else {
 			if rep.State.SessionState != api.PeerState_SESSION_STATE_IDLE {
@@ -361,15 +377,37 @@ func c07pRun(t *testing.T, c c07pCase) (res c07pResult) {
 			if self {
 				continue
 			}
-			if len(types) > 0 && types[0] == bgp.BGP_MSG_OPEN && openAtDisable[r] && len(notif) == 0 {
+			// (de-configuration is not an event of the RFC 4271 FSM: as in parts sim and active only the closing
+			// of the connection is required of a DeletePeer before Established)
+			if len(types) > 0 && types[0] == bgp.BGP_MSG_OPEN && openAtDisable[r] && len(notif) == 0 && !deleted {
 				bad("no-notification-on-disabled-connection", "connection %d carried the daemon's OPEN, was open when the peer was disabled and was closed without a NOTIFICATION (types %v)", i, types)
 			}
 		}
 		sort.Strings(shape)
 		res.outcome = strings.Join(shape, ";")
 
-		// liveness: enable, the daemon dials, a clean session establishes
-		_ = w.s.EnablePeer(context.Background(), &api.EnablePeerRequest{Address: addr})
+		// liveness: enable (add the peer again after a delete), the daemon dials, a clean session establishes
+		if stopped {
+			// the daemon is gone: what is left to check is that the bubble can end (every goroutine exits)
+			res.records = park.n
+			res.parkedAt = park.parkedAt
+			res.skipped = skip > 0
+			for _, r := range remotes {
+				r.shut()
+			}
+			w.stop(true)
+			return
+		}
+		if deleted {
+			if err := w.addPeerFor(bot); err != nil {
+				bad("cannot-add-deleted-peer-again", "AddPeer after DeletePeer: %v", err)
+			}
+			if p = w.peer(bot); p == nil {
+				p = thePeer
+			}
+		} else {
+			_ = w.s.EnablePeer(context.Background(), &api.EnablePeerRequest{Address: addr})
+		}
 		synctest.Wait()
 		for i := 0; i < 120 && !pending(); i++ {
 			w.advance(time.Second)
@@ -431,7 +469,7 @@ func c07pJudge(r *vr.Report, t *testing.T, c c07pCase) c07pResult {
 func TestVerif_C07_Park(t *testing.T) {
 	r := vr.Start(t, "C07", "park")
 	defer r.Finish()
-	r.Rule = "whole daemon, one active peer; scripts {session over the dialled connection; inbound connection + OPEN first, then the dial; dialled connection + OPEN, then an inbound one; bad OPEN on the dialled connection, retry} x every record the daemon logs from the first connect delay on (and the dial's return): the goroutine emitting it held there x meanwhile {nothing, DisablePeer, inbound connection + OPEN, remote closes its connections, the rest of the script}; then release, DisablePeer, 10 s, invariants (Idle, reported Idle/down, every connection closed, NOTIFICATION where our OPEN went out, hand-over channels empty), EnablePeer, dial within 120 s, clean session reaches Established; non-trivial = distinct (script, park site, perturbation)"
+	r.Rule = "whole daemon, one active peer; scripts {session over the dialled connection; inbound connection + OPEN first, then the dial; dialled connection + OPEN, then an inbound one; bad OPEN on the dialled connection, retry} x every record the daemon logs from the first connect delay on (and the dial's return): the goroutine emitting it held there x meanwhile {nothing, DisablePeer, DeletePeer (then the peer is added again instead of enabled), StopBgp (every connection closed, every goroutine gone), inbound connection + OPEN, remote closes its connections, the rest of the script}; then release, DisablePeer, 10 s, invariants (Idle, reported Idle/down, every connection closed, NOTIFICATION where our OPEN went out, hand-over channels empty), EnablePeer, dial within 120 s, clean session reaches Established; non-trivial = distinct (script, park site, perturbation)"
 	r.Assumptions = append(r.Assumptions, "park sites are the daemon's log records and the dial seam's return; sites reached with the peer's FSM lock or the server's table lock taken are skipped (counted in extra.skipped_under_lock)")
 	if r.ReplayPath() != "" {
 		var c c07pCase
@@ -475,7 +513,7 @@ func TestVerif_C07_Park(t *testing.T) {
 		k := base.records
 		for p := 0; p < k+6; p++ {
 			any := false
-			for _, x := range []string{"none", "disable", "inconn", "close", "rest"} {
+			for _, x := range []string{"none", "disable", "delete", "stopbgp", "inconn", "close", "rest"} {
 				res := c07pJudgeW(r, t, c07pCase{Script: script, Park: p, X: x})
 				if res.reached {
 					any = true
@@ -496,7 +534,7 @@ func TestVerif_C07_Park(t *testing.T) {
 	}
 	sort.Strings(names)
 	r.States = int64(len(sites))
-	r.Bounds = map[string]any{"scripts": 4, "perturbations": 5, "park_sites_distinct": len(sites)}
+	r.Bounds = map[string]any{"scripts": 4, "perturbations": 7, "park_sites_distinct": len(sites)}
 	r.Extra = map[string]any{"park_sites": names, "skipped_under_lock": skipped}
 	if len(sites) < 8 {
 		t.Fatalf("ENGINE-ERROR vacuous exploration: only %d park sites were reached (%v)", len(sites), names)
